@@ -6,6 +6,7 @@
 From Coq Require Import ZArith List String.
 From Verif Require Import Model.Effects Proofs.EffectsProofs Proofs.EffectsDocumented Proofs.EffectsVerdictPure Proofs.EffectsVerdictState Proofs.EffectsVerdictConc.
 From Verif Require Gen.EffectsIR.
+From Verif Require Import Model.EffectsDet Proofs.EffectsDetProofs Proofs.EffectsDetVerdict.
 Import ListNotations.
 
 (* outside the initialisers no function writes a package-level variable:
@@ -36,5 +37,60 @@ Theorem C17_concurrent : forall gl h0 nx0 (ths : nat -> option thread) sch h' ts
   (forall c, (forall i, ~ In c (writes_of (trs_of ths i))) -> h' c = h0 c).
 Proof. exact c17_concurrent. Qed.
 
+(* ---- deterministic programs (Model/EffectsDet.v): a call is a PROGRAM that computes its
+   actions and its result from what it reads and that conforms to the regenerated IR of an
+   exported function; for such programs the RESULT is a theorem, not only the footprint ---- *)
+(* C17, program level (DRF-determinism): race-free alone runs imply that
+   every schedule reproduces the alone runs, results included *)
+Theorem C17_drf_determinism : forall ps h0 trs ress,
+    alone_family ps h0 trs ress -> race_free_tr trs ->
+    forall sch h' pss',
+      prun_sched ps sch h0 pinit_all = (h', pss') ->
+      (forall i, exists rem,
+          trs i = (ps_emit (pss' i) ++ rem)%list /\
+          ps_obs (pss' i) = rev (obs (ps_emit (pss' i)) h0) /\
+          (forall r, ps_res (pss' i) = Some r -> rem = [] /\ r = ress i) /\
+          (forall c, In c (foot (trs i)) -> h' c = apply_tr (ps_emit (pss' i)) h0 c)) /\
+      (forall c, (forall i, ~ In c (writes_of (trs i))) -> h' c = h0 c) /\
+      (exists tss', run_sched sch h0 (init_threads trs) = (h', tss') /\
+                    forall i, trs i = (ps_emit (pss' i) ++ fst (tss' i))%list /\
+                              snd (tss' i) = ps_obs (pss' i)) /\
+      (pcomplete ps pss' ->
+       (forall i, ps_emit (pss' i) = trs i /\ rev (ps_obs (pss' i)) = obs (trs i) h0) /\
+       (forall i p, ps i = Some p -> ps_res (pss' i) = Some (ress i)) /\
+       (forall i c, In c (foot (trs i)) -> h' c = apply_tr (trs i) h0 c)).
+Proof. exact prog_sched_alone. Qed.
+
+(* C17 "every call returns the same value it returns when run alone, and no
+   data race occurs" *)
+Theorem C17_same_result : forall gl h0 nx0 (ths : nat -> option pthread) sch h' pss',
+    (forall i t, ths i = Some t ->
+       In (pt_f t) EffectsIR.exported_names /\ nx0 <= pt_lo t /\
+       (forall c, acc gl (pt_ps t) c -> c < nx0) /\
+       conforms EffectsIR.funcs gl (pt_prog t) (pt_f t) (pt_ps t) (pt_lo t) (pt_hi t) /\
+       snd (prog_trace (pt_prog t) h0 (pt_fuel t)) <> None) ->
+    (forall i j ti tj, i <> j -> ths i = Some ti -> ths j = Some tj ->
+                       pt_hi ti <= pt_lo tj \/ pt_hi tj <= pt_lo ti) ->
+    (forall i j ti tj, i <> j -> ths i = Some ti -> ths j = Some tj ->
+                       forall c, pt_dest documented ti c -> ~ acc gl (pt_ps tj) c) ->
+    prun_sched (progs_of ths) sch h0 pinit_all = (h', pss') ->
+    race_free_tr (ptrs_of h0 ths) /\
+    (forall i t, ths i = Some t ->
+       alone (pt_prog t) h0 (pt_tr h0 t) (pt_result h0 t) /\
+       exists rem,
+         pt_tr h0 t = (ps_emit (pss' i) ++ rem)%list /\
+         ps_obs (pss' i) = rev (obs (ps_emit (pss' i)) h0) /\
+         (forall r, ps_res (pss' i) = Some r -> rem = [] /\ r = pt_result h0 t)) /\
+    (forall c, (forall i t, ths i = Some t -> ~ In c (writes_of (pt_tr h0 t))) -> h' c = h0 c) /\
+    (pcomplete (progs_of ths) pss' ->
+     forall i t, ths i = Some t ->
+       ps_res (pss' i) = Some (pt_result h0 t) /\
+       ps_emit (pss' i) = pt_tr h0 t /\
+       rev (ps_obs (pss' i)) = obs (pt_tr h0 t) h0 /\
+       (forall c, In c (foot (pt_tr h0 t)) -> h' c = apply_tr (pt_tr h0 t) h0 c)).
+Proof. exact c17_same_result. Qed.
+
 Print Assumptions C17_no_package_state.
 Print Assumptions C17_concurrent.
+Print Assumptions C17_drf_determinism.
+Print Assumptions C17_same_result.
